@@ -79,6 +79,9 @@ pub async fn run() {
         let (sd, go, pa2) = (script_done.clone(), go_on.clone(), peer_acted.clone());
         sim::spawn("peer-script", async move {
             let mut test_link_attached = false;
+            // the peer's own view of the link under test: attached (and so owing an answer to a
+            // detach) or detached by the peer itself (the next detach is the answer to its own)
+            let mut peer_link_attached = false;
             let mut acted = false;
             let mut session_ended_by_peer = false;
             let deadline = tokio::time::Instant::now() + sim::OP_DEADLINE;
@@ -91,10 +94,12 @@ pub async fn run() {
                     match script {
                         Script::IdleLinkClosedByPeer => {
                             peer.send(0, &peer::detach(8, true, err())).await;
+                            peer_link_attached = false;
                             sim::fault("peer-closes-idle-link");
                         }
                         Script::IdleLinkDetachedByPeer => {
                             peer.send(0, &peer::detach(8, false, err())).await;
+                            peer_link_attached = false;
                             sim::fault("peer-detaches-idle-link");
                         }
                         Script::SessionEndedByPeer => {
@@ -124,6 +129,7 @@ pub async fn run() {
                                     }
                                     peer.send(0, &peer::attach(&a)).await;
                                     peer.send(0, &peer::detach(8, true, err())).await;
+                                    peer_link_attached = false;
                                     sim::fault("attach-refused");
                                 }
                                 Script::AttachNeverAnswered if name == "under-test" => {
@@ -141,6 +147,7 @@ pub async fn run() {
                                         peer.send(0, &peer::flow(&fl)).await;
                                     }
                                     test_link_attached = true;
+                                    peer_link_attached = true;
                                 }
                             }
                         }
@@ -159,11 +166,12 @@ pub async fn run() {
                             let h = p.field(0).as_u32().unwrap_or(99);
                             let closed = p.field(1).as_bool().unwrap_or(false);
                             // the endpoint's handle 0 is the sibling; everything else is the link under test
-                            let peer_initiated = acted && matches!(script, Script::IdleLinkClosedByPeer | Script::IdleLinkDetachedByPeer) || script == Script::AttachRefused;
                             if h == 0 {
                                 peer.send(0, &peer::detach(7, closed, None)).await;
-                            } else if !peer_initiated {
+                            } else if peer_link_attached {
+                                // (also after a re-attach: closing a link the peer had detached takes one)
                                 peer.send(0, &peer::detach(8, closed, None)).await;
+                                peer_link_attached = false;
                             }
                         }
                         wire::END => {
@@ -213,7 +221,10 @@ pub async fn run() {
     let answer_with_detach = choice(2) == 1;
     // ... and may learn of it from on_detach() instead of from a failing send
     let learn_by_on_detach = choice(2) == 1;
-    sim::append_config(&format!(" answer-with-detach={} learn-by-on_detach={}", answer_with_detach, learn_by_on_detach));
+    // after the peer's non-closing detach the application may want the link closed rather than
+    // detached: close() is then its next operation on the link (the answer may be a closing detach)
+    let close_after_peer_detach = choice(3) == 1;
+    sim::append_config(&format!(" answer-with-detach={} learn-by-on_detach={} close-after-peer-detach={}", answer_with_detach, learn_by_on_detach, close_after_peer_detach));
     match (script, attached) {
         (Script::AttachRefused, Ok(_)) => {
             sim::violation("refused-attach-succeeded", "the peer refused the attach with an immediate closing detach; attach() returned a link".into());
@@ -265,7 +276,7 @@ pub async fn run() {
                             None => return,
                         }
                     };
-                    let use_detach = script == Script::IdleLinkDetachedByPeer || (script == Script::IdleLinkClosedByPeer && answer_with_detach);
+                    let use_detach = (script == Script::IdleLinkDetachedByPeer && !close_after_peer_detach) || (script == Script::IdleLinkClosedByPeer && answer_with_detach);
                     let r2 = if use_detach {
                         match sim::op("detach", s.detach()).await {
                             Some(Ok(d)) => {
@@ -293,7 +304,7 @@ pub async fn run() {
                         None => return,
                     };
                     let r2 = match script {
-                        Script::IdleLinkDetachedByPeer => match sim::op("detach", rc.detach()).await {
+                        Script::IdleLinkDetachedByPeer if !close_after_peer_detach => match sim::op("detach", rc.detach()).await {
                             Some(r) => format!("{:?}", r.map(|_| ()).map_err(|(_, e)| e)),
                             None => return,
                         },
